@@ -326,7 +326,10 @@ func drawCase(rng *rand.Rand, idx int, cliEntry bool) *clientCase {
 // drawPhases builds the response phases for a case from a message source.
 func drawPhases(rng *rand.Rand, cc *clientCase, next func() *pb.SubscribeResponse) [][]*pb.SubscribeResponse {
 	nph := 1
-	if cc.qt == client.Poll {
+	// Further phases are played on the client's poll triggers; only the polling
+	// protocol sends them (the proto displays read the stream to its end and the
+	// single display never polls, so they get everything in one phase).
+	if cc.qt == client.Poll && (cc.Display == "" || cc.Display == "group") {
 		nph = 1 + cc.Polls
 	}
 	var phases [][]*pb.SubscribeResponse
